@@ -129,6 +129,11 @@ func checkpath(file string) string {
 				privfile = strings.ReplaceAll(privfile, k, v)
 			}
 		}
+		// the home directory is protected by the flag itself, not by a table
+		// entry which RemoveKnownPathMapping/ResetKnownPathMapping can drop.
+		if homeDir != "" && strings.HasPrefix(privfile, homeDir) {
+			privfile = "~" + privfile[len(homeDir):]
+		}
 
 		if IsAnyBitsSet(Lprivacypathregexp) {
 			for _, rpl := range knownPathRegexpMap {
